@@ -304,8 +304,8 @@ def run(chk):
     def within(o, vals):
         ts = [(v['id'], v['t']) for v in vals]
         return all((v['id'], v['t']) in ts for v in [o['v']] + o['vs'] if v is not NOV)
-    # quick: lists of <= 3 items over the whole value pool; thorough adds lists of <= 4 items over the first nine values
-    configs = [('model', VALS, 3)] + ([] if quick else [('model4', VALS[:9], 4)])
+    # quick: lists of <= 3 items over the whole value pool; thorough adds lists of <= 4 items over the first six values
+    configs = [('model', VALS, 3)] + ([] if quick else [('model4', VALS[:6], 4)])
     for label, vals, maxlen in configs:
         cops = [o for o in ops if within(o, vals)]
         d = tlc.workdir('C18_' + label)
